@@ -5,10 +5,10 @@
     sibling chain in [dup_loop_sim]): on a closed heap [g] that READS as the tree [t]
     ([src_t g lf k t], see CoreRefineDupTree.v) the call returns — never an error outcome —
     * either NULL in a heap that differs from [g] only in the allocator's counters, the trace and
-      the ownership tags of blocks that no longer exist ([Frame [] [] g g']), and then the
+      the ownership tags of blocks that no longer exist ([Ext [] [] g g']), and then the
       source was cut off at the depth limit or some allocation request was refused;
     * or a new tree [tc], encoded in [g'] next to everything [g] contained
-      ([Frame (nodes of tc) (strings of tc) g g'], [Chain_ok g' [tc] None]), which is a copy of
+      ([Ext (nodes of tc) (strings of tc) g g'], [Chain_ok g' [tc] None]), which is a copy of
       [t] ([copy_of]), and then nothing was cut off and no request was refused. *)
 From CJ Require Import Base Dbl Heap Forest ForestLemmas CoreSpec CoreDefs CoreRefineBase CoreRefine CoreRefineDelete
   CoreRefineDupBase CoreRefineDupTree CoreRefineDupNode CoreRefineDupLoop.
@@ -117,9 +117,9 @@ Section Main.
     Closed g -> src_node g lf i d ks ->
     exists r g',
       cJSON_Duplicate_rec oracle (S df) lf (Some i) depth false g = Ret (r, g') /\
-      ((r = None /\ Frame [] [] g g' /\ ofail g g') \/
+      ((r = None /\ Ext [] [] g g' /\ ofail g g') \/
        (exists d2, r = Some (h_next g) /\
-          Frame (nids (flat_t (T (h_next g) d2 []))) (sids (flat_t (T (h_next g) d2 []))) g g' /\
+          Ext (nids (flat_t (T (h_next g) d2 []))) (sids (flat_t (T (h_next g) d2 []))) g g' /\
           NoDup (nids (flat_t (T (h_next g) d2 [])) ++ sids (flat_t (T (h_next g) d2 []))) /\
           Chain_ok g' [T (h_next g) d2 []] None /\ Forall ref_ok (flat_t (T (h_next g) d2 [])) /\
           data_copy g' d d2 /\ oclean g g')).
@@ -154,9 +154,9 @@ Section Main.
     Closed h -> src_node h (Pos.to_nat (h_next h)) i d ks ->
     exists r h',
       cJSON_Duplicate oracle (Some i) false h = Ret (r, h') /\
-      ((r = None /\ Frame [] [] h h' /\ ofail h h') \/
+      ((r = None /\ Ext [] [] h h' /\ ofail h h') \/
        (exists d2, r = Some (h_next h) /\
-          Frame (nids (flat_t (T (h_next h) d2 []))) (sids (flat_t (T (h_next h) d2 []))) h h' /\
+          Ext (nids (flat_t (T (h_next h) d2 []))) (sids (flat_t (T (h_next h) d2 []))) h h' /\
           NoDup (nids (flat_t (T (h_next h) d2 [])) ++ sids (flat_t (T (h_next h) d2 []))) /\
           Chain_ok h' [T (h_next h) d2 []] None /\ Forall ref_ok (flat_t (T (h_next h) d2 [])) /\
           data_copy h' d d2 /\ oclean h h')).
